@@ -24,6 +24,7 @@ EXPLANATION = (
     "MAX_DATA_LEN. TX-6: the timestamp split secs = inner / 10^9 (truncating to_num), subsec_nanos = inner % 10^9 "
     "(truncating), subnano = frac(inner), and WireTimestamp::from(Time) uses exactly these. W-CTX/W-ACTIONS "
     "compile-fail witnesses run in the thorough tier."
+    " TX-9: no assignment to a *_seq_ids field outside construction (a generator is only advanced by generate()). TX-10 (shared with C07 NI-1): requests reach a handler only after the sdoId AND domain filter, which is what makes the `..request_header` copy in responses carry the instance's sdoId/domain."
 )
 NOT_DECIDED = "numeric exactness of the fixed-point operations (C16); that emitted frames decode (C04/C15)"
 
